@@ -130,6 +130,35 @@ theorem kp_corner_is_direct_evaluation {α : Type} (ham : QVec3 → α) (p dK v 
     kpCorner ham p dK v = kpDirect ham p dK v :=
   kpCorner_eq_kpDirect ham p dK v
 
+/-- T4 (Cartesian convention, any reciprocal cell).  With `k_vector_cartesian=True` the user's Hamiltonian receives
+    `k_red2cart(fold(·))`; the corner evaluation is again the direct one, for every reciprocal cell `B` (hexagonal, oblique,
+    anisotropic, …). -/
+theorem kp_corner_is_direct_evaluation_cart {α : Type} (ham : QVec3 → α) (B : Mat3) (p dK v : QVec3) :
+    kpCornerCart ham B p dK v = kpDirectCart ham B p dK v :=
+  kpCornerCart_eq_kpDirectCart ham B p dK v
+
+/-- T4 (the corner offset, explicit).  In Cartesian coordinates the corner k-point is
+    `corner_k = K·B + Σ_i s_i·dK_i·b_i`  (`s = (ix,iy,iz) − ½`, `b_i` the rows of the reciprocal cell), i.e. the reduced
+    offset `s∘dK` of the code equals the ROW-vector contraction `s·dK_cart` with `dK_cart = diag(dK)·B`
+    (`KpointBZparallel.dK_fullBZ_cart`) — for every lattice.  When `dK_cart` is symmetric (every cubic `kmax` box) the
+    transposed contraction `dK_cart·s` gives the same vector … -/
+theorem corner_offset_cartesian (B : Mat3) (k s dK : QVec3) :
+    redToCart B (qadd k (hadamard s dK)) = qadd (redToCart B k) (vecMat s (dKcart dK B)) ∧
+    (let M := dKcart dK B
+     M.1.2.1 = M.2.1.1 → M.1.2.2 = M.2.2.1 → M.2.1.2.2 = M.2.2.2.1 → matVec M s = vecMat s M) :=
+  ⟨redToCart_corner B k s dK, fun h12 h13 h23 => matVec_eq_vecMat_of_symm _ s h12 h13 h23⟩
+
+/-- … but NOT in a non-orthogonal cell: oblique cell with rows (1,0,0), (−½,1,0), (¼,½,1), isotropic `dK = ½`,
+    corner `s = (½,½,−½)`: the correct offset is `s·dK_cart = (1/16, ⅛, −¼)`, the transposed contraction gives
+    `dK_cart·s = (¼, ⅛, −1/16)`. -/
+theorem transposed_offset_differs :
+    let B : Mat3 := ((1, 0, 0), (-1 / 2, 1, 0), (1 / 4, 1 / 2, 1))
+    let dK : QVec3 := (1 / 2, 1 / 2, 1 / 2)
+    let s : QVec3 := (1 / 2, 1 / 2, -1 / 2)
+    vecMat s (dKcart dK B) = (1 / 16, 1 / 8, -1 / 4) ∧ matVec (dKcart dK B) s = (1 / 4, 1 / 8, -1 / 16) := by
+  intro B dK s
+  constructor <;> norm_num [B, dK, s, vecMat, matVec, dKcart, smulQ, dotQ, qadd]
+
 /-! ## non-vacuity -/
 
 /-- the phonon map on perfect squares, both signs: `[-9/4, 0, 1/4, 4] ↦ [-3/2, 0, 1/2, 2]` -/
